@@ -29,6 +29,9 @@ FIXED = [
  ("the merge-finished marker could never be read back", ["C06","C07","C18"], "D5", "no merge was ever adopted; merge directory never removed"),
  ("a record torn by a crash at the end of the newest data file", ["C03","C04"], "D3", "a torn last chunk made Open fail with ErrInvalidCRC (or glued later appends to the fragment)"),
  ("memory-mapped I/O could not be reopened after an unclean shutdown", ["C03","C04","C07"], "D4", "MMap files keep their 512 MiB zero tail after process death; Open failed with ErrInvalidCRC"),
+ ("readers panicked when intact chunks appear in the wrong place", ["C12"], "D23", "a block overwritten by a copy of another block (intact chunks out of order) made Open/Get/Fold/reader panic (slice bounds, multi-gigabyte allocation) in DecodeLogRecord"),
+ ("an expired string key answered WRONGTYPE", ["C19"], "D24", "HSet/SAdd/LPush/ZAdd... on a string whose TTL had passed returned the wrong-type error instead of treating the key as absent"),
+ ("the hint file stayed open", ["C20"], "D25", "after an adopted merge under MMap the data directory kept a 512 MiB..1 GiB hint file that Backup copied byte for byte (backup of KiB of data took minutes; hit the harness watchdog)"),
 ]
 OPEN = [
 ]
